@@ -78,7 +78,19 @@ theorem gcdFar_eq_angle (ra1 dec1 ra2 dec2 : ℝ) :
     gcdFar ra1 dec1 ra2 dec2 = 180 / π * InnerProductGeometry.angle (uvec ra1 dec1) (uvec ra2 dec2) := by
   rw [gcdFar_eq_hand, gcdFarHand_eq_sphDist]; rfl
 
-/-- What `gcd` returns: `np.where(a > 0.5, far, sep)` — whichever branch is selected.  All metric
+/-- **the selection is total**: `gcdSelect` is the final `return` of `gcd` (`np.where(a > 0.5, far, sep)`),
+    sliced out of the source and regenerated at `Float`, where the comparison actually happens.  For
+    EVERY double `a` — NaN and the threshold itself included — the value returned is one of the two
+    branch values.  A pair of strict conditions with a gap (`np.select([a < t, a > t], [sep, far])`,
+    whose default is 0) does not satisfy this: at `a = t` neither branch is chosen. -/
+theorem gcd_select_total (a far sep : Float) :
+    Gen.C17.gcdSelect a far sep = far ∨ Gen.C17.gcdSelect a far sep = sep := by
+  simp only [Gen.C17.gcdSelect]
+  repeat' split
+  all_goals first | exact Or.inl rfl | exact Or.inr rfl
+
+/-- What `gcd` returns: `np.where(a > 0.5, far, sep)` — whichever branch is selected
+    (`gcd_select_total`: it is always one of the two).  All metric
     theorems below are stated for an arbitrary selection `g ∈ {sep, far}` at each argument. -/
 def IsGcd (ra1 dec1 ra2 dec2 g : ℝ) : Prop :=
   g = gcdNear ra1 dec1 ra2 dec2 ∨ g = gcdFar ra1 dec1 ra2 dec2
